@@ -414,9 +414,9 @@ def trans : Instr → Abs → Option Abs
   | .marshal own, a =>
       if a.owns && a.cur && a.kMsg == some true && !a.marshalled && (!own || a.clean)
       then some { a with marshalled := true, benc := own, clean := a.clean && !own } else none
-  | .publishCopy, a => if a.cur && a.kMar == some true && !a.pubd then some { a with pubd := true } else none
+  | .publishCopy, a => if a.cur && a.kYield == some true && a.kMar == some true && !a.pubd then some { a with pubd := true } else none
   | .publishAlias, a =>
-      if a.cur && a.kMar == some true && !a.pubd && !a.benc then some { a with pubd := true } else none
+      if a.cur && a.kYield == some true && a.kMar == some true && !a.pubd && !a.benc then some { a with pubd := true } else none
   | .contIf _ _, _ => none
   | .unrecognised _, _ => none
 
